@@ -5,6 +5,7 @@ import (
 	"encoding/binary"
 	"encoding/hex"
 	"fmt"
+	"math/big"
 	"sort"
 	"strings"
 
@@ -43,6 +44,8 @@ type snapshot struct {
 	scupd    map[string]string
 	scquit   []string
 	sc       map[string]string
+	fee      map[string]string
+	feeinfo  []string
 	scOwner  map[uint64]common.Address
 	rl       []string
 	rlapply  map[string]string
@@ -134,7 +137,7 @@ func hexOrDash(b []byte) string {
 
 func (w *world) snap() *snapshot {
 	s := &snapshot{pools: map[uint32][]poolItem{}, apply: map[string]string{}, pidx: map[string]string{}, black: map[string]string{},
-		signs: map[string]string{}, scapply: map[string]string{}, scupd: map[string]string{}, sc: map[string]string{},
+		signs: map[string]string{}, fee: map[string]string{}, scapply: map[string]string{}, scupd: map[string]string{}, sc: map[string]string{},
 		rlapply: map[string]string{}, rlrm: map[string]string{}, svapply: map[string]string{}, svrm: map[string]string{},
 		sig: map[string]string{}, vote: map[string]string{}, cand: "-", cfg: "-", rlaid: "-", rlrid: "-", sv: "-", svaid: "-", svrid: "-",
 		scOwner: map[uint64]common.Address{}, blackSet: map[string]bool{}}
@@ -221,6 +224,23 @@ func (w *world) snap() *snapshot {
 		} else if suf, ok := match(k, side_chain_manager.QUIT_SIDE_CHAIN_REQUEST, 8); ok && len(v) == 8 && le64(v) == le64(suf) {
 			s.scquit = append(s.scquit, fmt.Sprintf("%020d", le64(suf)))
 			continue
+		} else if suf, ok := match(k, side_chain_manager.FEE, 8); ok {
+			fe := &side_chain_manager.Fee{Fee: new(big.Int)}
+			if err := fe.Deserialization(common.NewZeroCopySource(v)); err == nil {
+				s.fee[fmt.Sprintf("%020d", le64(suf))] = fmt.Sprintf("%d:%s", fe.View, fe.Fee.String())
+				continue
+			}
+		} else if suf, ok := match(k, side_chain_manager.FEE_INFO, 16); ok {
+			fi := &side_chain_manager.FeeInfo{FeeInfo: map[common.Address]*big.Int{}}
+			if err := fi.Deserialization(common.NewZeroCopySource(v)); err == nil {
+				var es []string
+				for a, f := range fi.FeeInfo {
+					es = append(es, ahex(a)+"="+f.String())
+				}
+				sort.Strings(es)
+				s.feeinfo = append(s.feeinfo, fmt.Sprintf("%020d/%020d>%d:%s", le64(suf[:8]), le64(suf[8:]), fi.StartTime, strings.Join(es, ",")))
+				continue
+			}
 		} else if suf, ok := match(k, side_chain_manager.SIDE_CHAIN, 8); ok {
 			if sc, ok := dec(); ok {
 				s.sc[fmt.Sprintf("%020d", le64(suf))] = scRec(sc)
@@ -231,6 +251,7 @@ func (w *world) snap() *snapshot {
 		unk(4, k)
 	}
 	sort.Strings(s.scquit)
+	sort.Strings(s.feeinfo)
 	// relayer manager
 	for _, kv := range rawItems(w, utils.RelayerManagerContractAddress) {
 		k, v := kv[0], kv[1]
@@ -412,6 +433,14 @@ func (s *snapshot) text() string {
 		q = append(q, unpad(x))
 	}
 	fmt.Fprintf(&b, ";scapply=%s;scupd=%s;scquit=[%s];sc=%s", mapStrNum(s.scapply), mapStrNum(s.scupd), strings.Join(q, ","), mapStrNum(s.sc))
+	var fis []string
+	for _, x := range s.feeinfo {
+		// zero padded "chain/view>..." sorts numerically; printed without padding
+		parts := strings.SplitN(x, ">", 2)
+		cv := strings.SplitN(parts[0], "/", 2)
+		fis = append(fis, unpad(cv[0])+"/"+unpad(cv[1])+">"+parts[1])
+	}
+	fmt.Fprintf(&b, ";fee=%s;feeinfo=[%s]", mapStrNum(s.fee), strings.Join(fis, "|"))
 	fmt.Fprintf(&b, ";rl=[%s];rlapply=%s;rlrm=%s;rlaid=%s;rlrid=%s", strings.Join(s.rl, ","), mapStrNum(s.rlapply), mapStrNum(s.rlrm), s.rlaid, s.rlrid)
 	fmt.Fprintf(&b, ";sv=%s;svapply=%s;svrm=%s;svaid=%s;svrid=%s", s.sv, mapStrNum(s.svapply), mapStrNum(s.svrm), s.svaid, s.svrid)
 	fmt.Fprintf(&b, ";sig=%s;vote=%s;done=[%s];perm=[%s]", mapStr(s.sig), mapStr(s.vote), strings.Join(s.done, ","), permittedText())
